@@ -702,7 +702,7 @@ def lm_named(col, w):
 
 
 def lm_events(full):
-    ev = [("set", k) for k in KEYS] + [("del", k) for k in KEYS] + [("named",), ("wl-empty",)]
+    ev = [("set", k) for k in KEYS] + [("del", k) for k in KEYS] + [("named",)] + ([("wl-empty",)] if full else [])
     for inplace in (False, True):
         for prepend in (True, False):
             if full:
@@ -1094,37 +1094,37 @@ def subchecks(tier, seed):
     quick = tier == "quick"
     subs = []
     # ---- Structured
-    sts = [("structured-unary", {"depth": 3, "nodes": 4, "wraps": 2}, 4)] if quick else \
-          [("structured-unary", {"depth": 4, "nodes": 5, "wraps": 2}, 5), ("structured-unary-wide", {"depth": 3, "nodes": 6, "wraps": 2}, 5)]
+    sts = [("structured-unary", {"depth": 3, "nodes": 4, "wraps": 2}, 7)] if quick else \
+          [("structured-unary", {"depth": 4, "nodes": 5, "wraps": 2}, 7), ("structured-unary-wide", {"depth": 3, "nodes": 6, "wraps": 1}, 7)]
     for name, st, sd in sts:
         subs.append(Sub(name, drv_st_unary, st, shard_depth=sd,
                         bounds={"nesting_depth": st["depth"], "max_nodes_below_top": st["nodes"], "tuple_len": "0..2",
-                                "keys": ["root", "a", "b"], "redundant_wraps": "0..2", "operations": ST_OPS}))
+                                "keys": ["root", "a", "b"], "redundant_wraps": "0..%d" % st["wraps"], "operations": ST_OPS}))
     mg = {"depth": 2, "nodes": 3, "arity": 2, "arity_min": 0} if quick else {"depth": 3, "nodes": 3, "arity": 2, "arity_min": 0}
-    subs.append(Sub("structured-merge", drv_st_merge, mg, shard_depth=4,
+    subs.append(Sub("structured-merge", drv_st_merge, mg, shard_depth=7,
                     bounds={"operands": "0..2 nodes (leaf / tuple / Structured), nesting depth <= %d, <= 3 nodes each" % mg["depth"],
                             "mergers": ["custom", "default on list leaves"]}))
     if not quick:
         mg3 = {"depth": 2, "nodes": 2, "arity": 3, "arity_min": 3}
-        subs.append(Sub("structured-merge-3", drv_st_merge, mg3, shard_depth=4,
+        subs.append(Sub("structured-merge-3", drv_st_merge, mg3, shard_depth=7,
                         bounds={"operands": "3 nodes, nesting depth <= 2, <= 2 nodes each"}))
     # ---- LayeredMapping
     full, reduced = lm_events(True), lm_events(False)
 
-    def lm_sub(name, events, max_ops, full_upto, kinds, tops):
+    def lm_sub(name, events, max_ops, full_upto, kinds, tops, sd):
         subs.append(Sub(name, drv_lm, {"events": events, "max_ops": max_ops, "max_layers": 3, "full_upto": full_upto,
-                                       "kinds": kinds, "top_names": tops}, shard_depth=4,
+                                       "kinds": kinds, "top_names": tops}, shard_depth=sd,
                         bounds={"layers": "0..3", "layer_kinds": kinds, "top_name": tops,
                                 "keys_per_layer": "every subset of k1,k2,k3 for stacks of <= %d layers; for taller stacks the "
                                                   "2**n covering matrices (every per-key presence pattern for every key)" % full_upto,
                                 "mutating_events": len(events), "history": "<= %d events" % max_ops}))
     if quick:
-        lm_sub("layered-stacks", full, 1, 2, KINDS, [None, "t"])
-        lm_sub("layered-histories", reduced, 3, 1, ["plain", "lm:x"], [None])
+        lm_sub("layered-stacks", full, 1, 2, KINDS, [None, "t"], 6)
+        lm_sub("layered-histories", reduced, 3, 1, ["plain", "lm:x"], [None], 6)
     else:
-        lm_sub("layered-stacks", full, 1, 3, KINDS, [None, "t"])
-        lm_sub("layered-stacks-2", full, 2, 2, KINDS, [None, "t"])
-        lm_sub("layered-histories", reduced, 4, 1, ["plain", "lm:x"], [None])
+        lm_sub("layered-stacks", full, 1, 3, KINDS, [None, "t"], 6)
+        lm_sub("layered-stacks-2", full, 2, 2, KINDS, [None], 5)
+        lm_sub("layered-histories", reduced, 4, 1, ["plain", "lm:x"], [None], 6)
     # ---- SimpleFormula
     inits = [(), (("a", "b"), ("1",), ("b",), ("c", "a"), ("a",))]
 
@@ -1140,5 +1140,5 @@ def subchecks(tier, seed):
         sf_sub("formula-sequence-wide", sf_events(T6, True, True), T6, 3)
     # ---- OrderedSet
     subs.append(Sub("ordered-set", drv_os, {"items": ["x", "y", "z"] if quick else ["x", "y", "z", 1], "n": 3 if quick else 4},
-                    shard_depth=2, bounds={"items": 3 if quick else 4, "max_sequence_length": 3 if quick else 4}))
+                    shard_depth=4, bounds={"items": 3 if quick else 4, "max_sequence_length": 3 if quick else 4}))
     return subs
